@@ -14,10 +14,10 @@ Snap(E) == {[ty |-> k.ty, id |-> k.id, val |-> E.cache[k].val, rid |-> E.cache[k
               : k \in {x \in Keys : E.cache[x] # None}}
 
 ScriptList == {[ty |-> k.ty, id |-> k.id, script |-> Scripts[k]] : k \in DOMAIN Scripts}
-SrcList == {[id |-> f[1], ext |-> f[2], c |-> InitSrc[f]] : f \in {g \in Files : InitSrc[g] # None}}
+SrcList(E) == {[id |-> f[1], ext |-> f[2], c |-> E.src[f]] : f \in {g \in Files : E.src[g] # None}}
 
-World == [op |-> "world", scripts |-> ScriptList, src |-> SrcList, dirs |-> InitDirs,
-          hasR |-> HasReloader, keys |-> Keys]
+World(E) == [op |-> "world", scripts |-> ScriptList, src |-> SrcList(E), dirs |-> InitDirs,
+             hasR |-> HasReloader, keys |-> Keys]
 
 Do(o) ==
     CASE o.op = "load"     -> Load(o.k)
@@ -35,10 +35,11 @@ Do(o) ==
       [] o.op = "disarm"   -> Disarm
       [] o.op = "send"     -> Send(o.batch)
       [] o.op = "sync"     -> Sync
+      [] o.op = "notify"   -> Notify(o.batch)
       [] o.op = "hot_reload" -> HotReload
       [] o.op = "enhance"  -> Enhance
 
-GInit == Init /\ hist = <<World>>
+GInit == Init /\ hist = <<World(env)>>
 
 GNext == /\ Len(hist) <= N
          /\ \E o \in Ops : Do(o)
